@@ -51,7 +51,13 @@ LIB_CPP = ["src/cpp/ports.cpp", "src/cpp/ports-runtime.cpp", "src/cpp/default-va
 VARIANTS = {
     # the pinned build is RelWithDebInfo: -O2 -g -DNDEBUG
     "plain": ["-O2", "-g", "-DNDEBUG"],
-    "asan":  ["-O1", "-g", "-DNDEBUG", "-fsanitize=address,undefined",
+    # UBSan's shift check is off: the library assembles big-endian words with
+    # `byte << 24` on int throughout (formally UB for bytes >= 128, the
+    # intended two's-complement result everywhere it is compiled); it is not
+    # what any property here is about and would mask every other observation;
+    # likewise vla-bound: rtosc_avmessage declares a zero-length VLA for an
+    # empty argument list (harmless with every compiler the library supports)
+    "asan":  ["-O1", "-g", "-DNDEBUG", "-fsanitize=address,undefined", "-fno-sanitize=shift,vla-bound",
               "-fno-sanitize-recover=all", "-fno-omit-frame-pointer"],
     "tsan":  ["-O1", "-g", "-DNDEBUG", "-fsanitize=thread"],
     # GCC's post-optimisation call graph (C03)
@@ -78,7 +84,8 @@ def build_lib(variant, log):
     archive (cached by content hash of /repo/src + /repo/include)."""
     h = repo_hash()
     prune_obj(h)
-    d = os.path.join(WORK, "obj", h, variant)
+    fh = hashlib.sha256(" ".join(VARIANTS[variant]).encode()).hexdigest()[:8]
+    d = os.path.join(WORK, "obj", h, variant + "_" + fh)
     lib = os.path.join(d, "librtosc_v.a")
     if os.path.exists(lib):
         return lib, d
@@ -247,7 +254,8 @@ def check_proofs(pid, log, clean=False):
     return res
 
 def build_driver(pid, log):
-    """Extract the model (ExtrOcamlBasic only) and compile the OCaml driver."""
+    """Extract the model (ExtrOcamlBasic only) and compile the OCaml driver.
+    pid names a directory under ocaml/ (several properties may share one)."""
     src = os.path.join(VERIF, "ocaml", pid)
     h = tree_hash([src, os.path.join(VERIF, "ocaml", "conv.ml.inc"), COQ])
     d = os.path.join(WORK, "ocaml", pid)
@@ -432,7 +440,7 @@ def main():
     # 3. model driver
     drv_exe = None
     try:
-        drv_exe = build_driver(pid, log)
+        drv_exe = build_driver(getattr(plug, "DRIVER", pid), log)
     except BuildError as e:
         log("MODEL BUILD FAILED: " + str(e)[-800:])
         nofail.append({"kind": "model", "detail": str(e)[-2000:]})
